@@ -93,6 +93,8 @@ def make_fn(world, name, param, cur=None):
         world.tick("fn", name)
         if name == "existing":
             return _existing_like(cur, v, param)
+        if name == "boom":
+            raise ValueError("transform failed")
         if name == "inc":
             return v + param
         if name == "double":
